@@ -1062,7 +1062,7 @@ class AdbDevice(object):
         self._filesync_send(constants.SEND, adb_info, filesync_info, data=fileinfo)
 
         if progress_callback:
-            total_bytes = os.fstat(stream.fileno()).st_size
+            total_bytes = len(stream.getbuffer()) if isinstance(stream, BytesIO) else os.fstat(stream.fileno()).st_size
 
         while True:
             data = stream.read(self.max_chunk_size)
